@@ -15,6 +15,7 @@ import (
 	"sort"
 	"strings"
 	"sync"
+	"unsafe"
 
 	"github.com/ProtonMail/gluon"
 	"github.com/ProtonMail/gluon/db"
@@ -42,6 +43,27 @@ type scenario struct {
 	Txs   []txn
 	Batch bool
 	NoCoq bool // checked against the Go oracle only (keeps the model evaluation short)
+	Trace bool // the client is built with the tracing wrappers (sqlite3.Trace()): utils.ReadTracer / utils.WriteTracer
+}
+
+// clientInterface returns the SQLite client builder, optionally with call tracing switched on. The exported hook has no
+// option parameter, so the unexported `trace` field of the builder is set through reflection (notes/C08-notes.md proposes
+// `VerifSQLiteClientInterface(opts ...sqlite3.Option)` instead).
+func clientInterface(trace bool) (db.ClientInterface, error) {
+	ci := gluon.VerifSQLiteClientInterface()
+	if !trace {
+		return ci, nil
+	}
+	v := reflect.ValueOf(ci)
+	if v.Kind() != reflect.Ptr || v.Elem().Kind() != reflect.Struct {
+		return nil, fmt.Errorf("cannot enable tracing: the client builder is a %T", ci)
+	}
+	f := v.Elem().FieldByName("trace")
+	if !f.IsValid() || f.Kind() != reflect.Bool {
+		return nil, fmt.Errorf("cannot enable tracing: %T has no bool field `trace`", ci)
+	}
+	reflect.NewAt(f.Type(), unsafe.Pointer(f.UnsafeAddr())).Elem().SetBool(true)
+	return ci, nil
 }
 
 type failure struct {
@@ -68,7 +90,12 @@ func runScenario(ctx *common.Ctx, sc *scenario, wantCoq bool) (out runOut) {
 		return
 	}
 	defer os.RemoveAll(dir)
-	client, _, err := gluon.VerifSQLiteClientInterface().New(dir, "user")
+	ci, err := clientInterface(sc.Trace)
+	if err != nil {
+		out.fail = &failure{Kind: "infra", Detail: err.Error()}
+		return
+	}
+	client, _, err := ci.New(dir, "user")
 	if err != nil {
 		out.fail = &failure{Kind: "infra", Detail: err.Error()}
 		return
@@ -439,6 +466,9 @@ func (sc *scenario) canon(f *failure) string {
 		ts = append(ts, k+"["+strings.Join(os, ";")+"]")
 	}
 	s := strings.Join(ts, " ")
+	if sc.Trace {
+		s = "traced-client: " + s
+	}
 	if f != nil {
 		s += " => " + f.Kind
 	}
@@ -488,7 +518,7 @@ func shrink(ctx *common.Ctx, sc *scenario, f *failure, budget int) (*scenario, *
 	}
 	// cut everything after the failing transaction
 	if curF.Tx+1 < len(cur.Txs) {
-		c := &scenario{Name: cur.Name, Txs: append([]txn{}, cur.Txs[:curF.Tx+1]...)}
+		c := &scenario{Name: cur.Name, Trace: cur.Trace, Txs: append([]txn{}, cur.Txs[:curF.Tx+1]...)}
 		try(c)
 	}
 	for pass := 0; pass < 2; pass++ {
@@ -496,7 +526,7 @@ func shrink(ctx *common.Ctx, sc *scenario, f *failure, budget int) (*scenario, *
 			if ti >= len(cur.Txs) {
 				continue
 			}
-			c := &scenario{Name: cur.Name}
+			c := &scenario{Name: cur.Name, Trace: cur.Trace}
 			c.Txs = append(c.Txs, cur.Txs[:ti]...)
 			c.Txs = append(c.Txs, cur.Txs[ti+1:]...)
 			if len(c.Txs) > 0 && try(c) {
@@ -506,7 +536,7 @@ func shrink(ctx *common.Ctx, sc *scenario, f *failure, budget int) (*scenario, *
 				if ti >= len(cur.Txs) || oi >= len(cur.Txs[ti].Ops) {
 					continue
 				}
-				c := &scenario{Name: cur.Name}
+				c := &scenario{Name: cur.Name, Trace: cur.Trace}
 				for k, t := range cur.Txs {
 					if k == ti {
 						nt := txn{Abort: t.Abort, ReadOnly: t.ReadOnly}
@@ -526,7 +556,7 @@ func shrink(ctx *common.Ctx, sc *scenario, f *failure, budget int) (*scenario, *
 
 func runC08(ctx *common.Ctx) error {
 	res := ctx.Res
-	res.Rule = "random and structured histories of db.Client Read/Write transactions over ALL operations of the db interface (list lengths 0..2*ChunkLimit+1 with mass at 999/1000/1001/1999/2000/2001, aborts at every position, failing operations); after every operation the result and after every transaction a raw SQL dump of the file are compared with a plain in-memory relational oracle; non-trivial = distinct (operation kind, list-length class, outcome class)"
+	res.Rule = "random and structured histories of db.Client Read/Write transactions over ALL operations of the db interface (list lengths 0..2*ChunkLimit+1 with mass at ChunkLimit-1/ChunkLimit/ChunkLimit+1 and 2*ChunkLimit-1/../+1, derived from db.ChunkLimit; half of the histories on a client with the tracing wrappers; aborts at every position, failing operations); after every operation the result and after every transaction a raw SQL dump of the file are compared with a plain in-memory relational oracle; non-trivial = distinct (operation kind, list-length class, outcome class)"
 	scs := genScenarios(ctx)
 	var lines []string
 	caseID := 0
@@ -549,6 +579,9 @@ func runC08(ctx *common.Ctx) error {
 				ssc, sf = shrink(ctx, sc, out.fail, 25)
 			}
 			sig := sigOf(ssc, sf)
+			if sc.Trace {
+				res.Count("failure-on-traced-client")
+			}
 			c := sig + " | " + ssc.canon(sf)
 			res.Count("failure:" + sig)
 			if !seenFail[sig] { // one report per (operation, kind of difference); the corpus runs first, so known ones are stable
@@ -583,19 +616,19 @@ func lenClass(n int) string {
 	case n == 1:
 		return "1"
 	case n < chunkLimit/2:
-		return "<500"
+		return "<L/2"
 	case n <= chunkLimit/2+1:
-		return "500-501"
+		return "L/2..L/2+1"
 	case n < chunkLimit-1:
-		return "<999"
+		return "<L-1"
 	case n <= chunkLimit+1:
-		return "999-1001"
+		return "L-1..L+1"
 	case n < 2*chunkLimit-1:
-		return "<1999"
+		return "<2L-1"
 	case n <= 2*chunkLimit+1:
-		return "1999-2001"
+		return "2L-1..2L+1"
 	}
-	return ">2001"
+	return ">2L+1"
 }
 
 func countScenario(r *common.Result, sc *scenario) {
